@@ -20,6 +20,12 @@
 (* Named deviation "mode_from_flag" (the code before this round's fix): every  *)
 (* call reads the caller's mode from the flag as it is at that moment - which  *)
 (* another call of the runtime may have forced - and puts back what it read.   *)
+(* The descriptor may also be closed (by a third party, through the hooked     *)
+(* close) while calls are parked on it - the usual way to get rid of a reader. *)
+(* The calls then come back with the kernel's EBADF; putting the mode back     *)
+(* fails and must be survived.  Named deviation "restore_asserts" (the code    *)
+(* before this round's fix): the failing fcntl trips an assertion inside an    *)
+(* extern "C" function and the process aborts.                                 *)
 EXTENDS Naturals, FiniteSets, TLC
 
 CONSTANTS Callers, MaxEnters, Deviations
@@ -32,51 +38,64 @@ VARIABLES userNb,   \* the mode the caller gave the descriptor (TRUE = non-block
           believes, \* [Callers -> what the call in progress took for the caller's mode: TRUE = blocking]
           enters,   \* [Callers -> calls made]
           last,     \* [Callers -> outcome of the last call: "none" | "ok" | "eagain_at_once" | "eagain_timeout"]
-          askedBlk  \* the kernel was asked while the descriptor was blocking (the thread would have parked there)
-vars == <<userNb, flag, forced, pc, believes, enters, last, askedBlk>>
+          askedBlk, \* the kernel was asked while the descriptor was blocking (the thread would have parked there)
+          open,     \* the descriptor is open
+          died      \* the process aborted
+vars == <<userNb, flag, forced, pc, believes, enters, last, askedBlk, open, died>>
 
 Init == /\ userNb \in BOOLEAN /\ flag = userNb /\ forced = 0
         /\ pc = [c \in Callers |-> "idle"] /\ believes = [c \in Callers |-> FALSE]
         /\ enters = [c \in Callers |-> 0] /\ last = [c \in Callers |-> "none"] /\ askedBlk = FALSE
+        /\ open = TRUE /\ died = FALSE
 
 \* is_blocking: what mode did the caller choose?
 Look(c) ==
-  /\ pc[c] = "idle" /\ enters[c] < MaxEnters
+  /\ pc[c] = "idle" /\ enters[c] < MaxEnters /\ open /\ ~died
   /\ believes' = [believes EXCEPT ![c] = IF Dev("mode_from_flag") THEN ~flag ELSE (~flag \/ forced > 0)]
   /\ pc' = [pc EXCEPT ![c] = "looked"] /\ enters' = [enters EXCEPT ![c] = @ + 1]
-  /\ UNCHANGED <<userNb, flag, forced, last, askedBlk>>
+  /\ UNCHANGED <<userNb, flag, forced, last, askedBlk, open, died>>
 \* set_non_blocking, if the caller's mode is blocking
 Enter(c) ==
-  /\ pc[c] = "looked"
+  /\ pc[c] = "looked" /\ ~died
   /\ flag' = IF believes[c] THEN TRUE ELSE flag
   /\ forced' = IF believes[c] /\ ~Dev("mode_from_flag") THEN forced + 1 ELSE forced
   /\ pc' = [pc EXCEPT ![c] = "in"]
-  /\ UNCHANGED <<userNb, believes, enters, last, askedBlk>>
+  \* (forcing the flag on a descriptor closed since the look fails just like putting it back)
+  /\ died' = (died \/ (believes[c] /\ ~open /\ Dev("restore_asserts")))
+  /\ UNCHANGED <<userNb, believes, enters, last, askedBlk, open>>
 
 Leave(c, r) ==
   /\ pc' = [pc EXCEPT ![c] = "idle"] /\ last' = [last EXCEPT ![c] = r]
   /\ IF believes[c]
      THEN IF Dev("mode_from_flag")
           THEN flag' = FALSE /\ UNCHANGED forced
-          ELSE forced' = forced - 1 /\ flag' = (forced - 1 > 0)
+          ELSE forced' = (IF forced > 0 THEN forced - 1 ELSE 0) /\ flag' = (forced - 1 > 0)
      ELSE UNCHANGED <<flag, forced>>
+  \* putting the mode back on a descriptor that has been closed meanwhile fails
+  /\ died' = (died \/ (believes[c] /\ ~open /\ Dev("restore_asserts")))
 
 \* the kernel is asked
 Ask(c, resp) ==
-  /\ pc[c] = "in"
-  /\ askedBlk' = (askedBlk \/ ~flag)
+  /\ pc[c] = "in" /\ ~died
+  /\ (~open => resp = "ebadf") /\ (open => resp # "ebadf")
+  /\ askedBlk' = (askedBlk \/ (open /\ ~flag))
   /\ CASE resp = "ok" -> Leave(c, "ok")
+       [] resp = "ebadf" -> Leave(c, "ebadf")
        [] resp = "wouldblock" ->
-            IF believes[c] THEN pc' = [pc EXCEPT ![c] = "wait"] /\ UNCHANGED <<flag, forced, last>>
+            IF believes[c] THEN pc' = [pc EXCEPT ![c] = "wait"] /\ UNCHANGED <<flag, forced, last, died>>
             ELSE Leave(c, "eagain_at_once")
-  /\ UNCHANGED <<userNb, believes, enters>>
+  /\ UNCHANGED <<userNb, believes, enters, open>>
 \* the wait for readiness ends: ready (ask again) or the time limit
-Wake(c) == /\ pc[c] = "wait" /\ pc' = [pc EXCEPT ![c] = "in"]
-           /\ UNCHANGED <<userNb, flag, forced, believes, enters, last, askedBlk>>
-Timeout(c) == /\ pc[c] = "wait" /\ Leave(c, "eagain_timeout")
-              /\ UNCHANGED <<userNb, believes, enters, askedBlk>>
+Wake(c) == /\ pc[c] = "wait" /\ ~died /\ pc' = [pc EXCEPT ![c] = "in"]
+           /\ UNCHANGED <<userNb, flag, forced, believes, enters, last, askedBlk, open, died>>
+Timeout(c) == /\ pc[c] = "wait" /\ ~died /\ Leave(c, "eagain_timeout")
+              /\ UNCHANGED <<userNb, believes, enters, askedBlk, open>>
+\* the hooked close: the runtime forgets what it knew about the number, the descriptor is gone
+CloseFd == /\ open /\ ~died /\ open' = FALSE /\ forced' = 0 /\ flag' = FALSE
+           /\ UNCHANGED <<userNb, pc, believes, enters, last, askedBlk, died>>
 
-Next == \E c \in Callers : Look(c) \/ Enter(c) \/ Wake(c) \/ Timeout(c) \/ \E resp \in {"ok", "wouldblock"} : Ask(c, resp)
+Next == \/ \E c \in Callers : Look(c) \/ Enter(c) \/ Wake(c) \/ Timeout(c) \/ \E resp \in {"ok", "wouldblock", "ebadf"} : Ask(c, resp)
+        \/ CloseFd
 Spec == Init /\ [][Next]_vars
 
 ------------------------------------------------------------------------------
@@ -85,7 +104,9 @@ CallersModeRespected == \A c \in Callers : last[c] = "eagain_at_once" => userNb
 \* ... and one that chose non-blocking is never made to wait
 NonblockNeverWaits == \A c \in Callers : pc[c] = "wait" => ~userNb
 \* C18: with no call in progress the descriptor's mode is the caller's
-ModeRestoredWhenQuiet == (\A c \in Callers : pc[c] = "idle") => (flag = userNb /\ forced = 0)
+ModeRestoredWhenQuiet == (open /\ \A c \in Callers : pc[c] = "idle") => (flag = userNb /\ forced = 0)
 \* the kernel is never asked on a blocking descriptor
 NeverAsksBlocking == ~askedBlk
+\* a descriptor closed under a parked call costs that call, not the process
+NoAbort == ~died
 =============================================================================
